@@ -82,7 +82,7 @@ theorem falseIsAssignment_spec (x : Expr) (h : falseIsAssignment x = true) :
 
 /-! ## Well-formed trees (the shapes the partial theorem covers) -/
 
--- `WF`: every literal prints as one token that reads back as itself; no assignment in the middle of a conditional
+-- `WF`: every literal prints as one token that reads back as itself
 -- (calls are calls without template arguments — the model has no others)
 mutual
 def WF : Expr → Prop
@@ -90,7 +90,7 @@ def WF : Expr → Prop
   | .id _ => True
   | .un _ x => WF x
   | .bin _ l r => WF l ∧ WF r
-  | .tern c a b => WF c ∧ WF a ∧ WF b ∧ a.lvl ≠ 14
+  | .tern c a b => WF c ∧ WF a ∧ WF b
   | .sub o i => WF o ∧ WF i
   | .mem o _ => WF o
   | .call f args => WF f ∧ WFA args
@@ -99,12 +99,13 @@ def WFA : Args → Prop
   | .cons e r => WF e ∧ WFA r
 end
 
-theorem litOk_toks (n : String) (h : LitOk n = true) : toks (litPiecesT n) = [.lit n] := by
+theorem litOk_toks (n : Lit) (h : LitOk n = true) : toks (litPiecesT n) = [.lit n] := by
   unfold LitOk at h
   unfold litPiecesT
   split at h
   · rename_i m s heq
     simp at h
+    obtain ⟨h, _⟩ := h
     subst h
     simp [heq]
   · simp at h
